@@ -25,6 +25,10 @@ var c14Trace = []string{"trace_action_call_type", "trace_action_idx", "trace_act
 type c14Decl struct {
 	event  bool
 	fields []string
+	// random layer only: keep the drawn field order, and filter log_addr with
+	// a condition that cannot be handed to the node (an exclusion)
+	keepOrder  bool
+	addrFilter *model.Filter
 }
 
 var (
@@ -35,7 +39,7 @@ var (
 func c14Init() {
 	c14Once.Do(func() {
 		add := func(event bool, fs ...string) {
-			c14Cases = append(c14Cases, c14Decl{event, append([]string(nil), fs...)})
+			c14Cases = append(c14Cases, c14Decl{event: event, fields: append([]string(nil), fs...)})
 		}
 		pairs := func(event bool, pool []string, need func(a, b string) bool) {
 			for i, a := range pool {
@@ -90,9 +94,15 @@ func c14Plan(cs c14Decl, seed uint64, note string) *Plan {
 		p.Content.MinLogs = 1
 	}
 	fs := append([]string(nil), cs.fields...)
-	sort.Strings(fs)
+	if !cs.keepOrder {
+		sort.Strings(fs)
+	}
 	for _, f := range fs {
-		d.Block = append(d.Block, model.Field{Name: f, Column: f})
+		fl := model.Field{Name: f, Column: f}
+		if f == "log_addr" && cs.addrFilter != nil {
+			fl.Filter = cs.addrFilter
+		}
+		d.Block = append(d.Block, fl)
 		d.Table.Columns = append(d.Table.Columns, model.Col{Name: f, Type: FieldType[f]})
 	}
 	p.Decls = []*model.Decl{d}
@@ -139,7 +149,21 @@ func C14Indexed(t *testing.T, i int, seedBase uint64) (*Plan, bool) {
 			n--
 		}
 	}
-	p := c14Plan(cs, seed, fmt.Sprintf("random event=%v fields=%v", cs.event, cs.fields))
+	cs.keepOrder = g.chance(60)
+	if cs.event && g.chance(40) {
+		has := false
+		for _, f := range cs.fields {
+			has = has || f == "log_addr"
+		}
+		if !has {
+			at := g.R.IntN(len(cs.fields) + 1)
+			cs.fields = append(cs.fields[:at:at], append([]string{"log_addr"}, cs.fields[at:]...)...)
+		}
+		// every generated log comes from ...a1, so an exclusion of another
+		// address keeps them all
+		cs.addrFilter = &model.Filter{Op: g.pick([]string{"ne", "!contains"}), Arg: []string{"0x00000000000000000000000000000000000000b2"}}
+	}
+	p := c14Plan(cs, seed, fmt.Sprintf("random event=%v fields=%v keepOrder=%v addrFilter=%v", cs.event, cs.fields, cs.keepOrder, cs.addrFilter != nil))
 	p.Seed = seed
 	if g.chance(45) {
 		// a second integration on the same source and range with a data plan
